@@ -43,6 +43,7 @@ class _Producer:
 
             @property
             def output(_self):
+                outer.sim.listing_fault("output")
                 return ["out-%d" % i for i, t in enumerate(outer.outputs) if t <= outer.sim.now_s()]
 
             def outputSinceDate(_self, date):
@@ -50,6 +51,7 @@ class _Producer:
                 return ["out-%d" % i for i, t in enumerate(outer.outputs) if d < t <= outer.sim.now_s()]
 
             def outputBeforeDate(_self, date):
+                outer.sim.listing_fault("outputBeforeDate")
                 d = outer.sim.to_s(date)
                 return ["out-%d" % i for i, t in enumerate(outer.outputs) if t <= d]
         self.workingDirectory = _WD()
@@ -183,6 +185,21 @@ class RepSim:
         self.engine = None
         self.workdir = workdir
         self.aborted = None
+        # transient failures of listing a producer's working directory (stale NFS handle, folder being replaced): the
+        # n-th look at a producer's output (counted over all producers) raises FilesystemInconsistencyError
+        self.listing_faults = set(case.get("listing_faults") or ())
+        self.listings = 0
+        self.listing_faults_raised = 0
+
+    def listing_fault(self, what):
+        import experiment.model.errors
+        n = self.listings
+        self.listings += 1
+        if n in self.listing_faults:
+            self.listing_faults_raised += 1
+            raise experiment.model.errors.FilesystemInconsistencyError(
+                "scripted: cannot list the working directory of a producer (%s, look %d)" % (what, n),
+                OSError(116, "Stale file handle"))
 
     # -- time -------------------------------------------------------------------------------------------
     def now_s(self) -> float:
